@@ -63,6 +63,14 @@ def norm(x):
     return str(x)
 
 
+def strip_readable(rec):
+    """A trace record without the decoded (readable) views."""
+    if rec and rec[0] in ("construct", "reset", "step") and \
+            isinstance(rec[-1], tuple) and len(rec[-1]) == 4:
+        return rec[:-1] + (rec[-1][:2],)
+    return rec
+
+
 class Runner:
     """Executes the operations of one logical environment."""
 
@@ -242,7 +250,7 @@ def make_pair(rng, tier, force=None):
 
     k = rng.choice(["same", "same", "same_layout", "twin", "twin",
                     "different", "different", "different_modes",
-                    "refused_pivot"])
+                    "refused_pivot", "split"])
     if force == "tiny_small":
         # the documented witness of the recorded finding KF-C19-layout
         return shipped("tiny"), shipped("small"), "different"
@@ -299,6 +307,24 @@ def make_pair(rng, tier, force=None):
         a, b = syn(sp), syn(sp2)
         a["modes"] = b["modes"] = m
         return a, b, "twin_one_field:" + what
+    if k == "split":
+        # the same network under two address-space bounds of equal total
+        # width, (subnets + k, hosts) and (subnets, hosts + k): only the place
+        # where the host one-hot starts differs between the two layouts
+        sp = synth.synth(rng, "quick", route="dict", max_hosts=7, live=1.0)
+        can = sp.canonical()
+        n0, m0 = len(sp.subnets), max(sp.subnets)
+        kk = rng.randint(1, 2)
+        can_a, can_b = dict(can), dict(can)
+        can_a["bounds"] = [n0 + kk, m0]
+        can_b["bounds"] = [n0, m0 + kk]
+        a = syn(spec_from_canonical(can_a, name=sp.name, origin=sp.origin))
+        b = syn(spec_from_canonical(can_b, name=sp.name, origin=sp.origin))
+        a["modes"]["fully_obs"] = b["modes"]["fully_obs"] = \
+            rng.random() < 0.25
+        if rng.random() < 0.5:
+            a, b = b, a
+        return a, b, "split"
     if k == "refused_pivot":
         # two environments attacking one network whose inner hosts refuse
         # some footholds; mostly built from one and the same Scenario object
@@ -404,7 +430,20 @@ def interleave(acc, A, B, opsA, opsB, soloA, soloB, sched, shim, kind, pair_id,
                    "opsA": [list(o) for o in opsA],
                    "opsB": [list(o) for o in opsB], "schedule": sched,
                    "shim": shim}
+            split_only = False
             if overwritten and not shim:
+                differing = {a for a in LAYOUT_ATTRS
+                             if now.get(a) != r.snap.get(a)}
+                split_only = differing <= {"address_space_bounds",
+                                           "_host_address_idx"}
+            if split_only and strip_readable(rec) != strip_readable(solo[i]):
+                # the two layouts differ only in where the host one-hot
+                # starts: the recorded finding then reaches the decoded
+                # addresses (readable views) and nothing else - arrays,
+                # rewards, flags and errors must still agree
+                mech = "diverged_beyond_layout_footprint:" + what
+                detail["layout_attributes_differing"] = sorted(differing)
+            elif overwritten and not shim:
                 mech = "layout_class_attrs_overwritten"
             elif shim:
                 mech = f"diverged_in_shim_mode:{what}"
@@ -438,7 +477,8 @@ def schedules(na, nb, rng, limit):
 def pair_case(acc, rng, tier, pair_id):
     z = SIZES[tier]
     A, B, kind = make_pair(rng, tier, "tiny_small" if pair_id == 0 else None)
-    long_ = kind.startswith("twin") or A.get("prefer_refused")
+    long_ = kind.startswith("twin") or A.get("prefer_refused") or \
+        kind == "split"
     short = rng.random() < 0.5 and not long_
     lo = z["ops"] - 4 if long_ else 5
     na = rng.randint(3, 4) if short else rng.randint(lo, z["ops"])
